@@ -37,7 +37,7 @@ func (e *fnEnc) strEq(a, b Term) Term {
 	if !e.declSeen[f] {
 		e.declSeen[f] = true
 		e.needSort(SStr)
-		e.decls = append(e.decls, "(define-fun streq ((a Str) (b Str)) Bool (and (= (s-len a) (s-len b)) (forall ((i Int)) (! (=> (and (<= 0 i) (< i (s-len a))) (= (str.at a i) (str.at b i))) :pattern ((str.at a i)) :pattern ((str.at b i))))))")
+		e.decls = append(e.decls, "(define-fun streq ((a Str) (b Str)) Bool (and (= (s-len a) (s-len b)) (forall ((i Int)) (! (=> (and (<= 0 i) (< i (s-len a))) (= (byteAt a i) (byteAt b i))) :pattern ((byteAt a i)) :pattern ((byteAt b i))))))")
 	}
 	return app(SBool, "streq", a, b)
 }
@@ -117,7 +117,7 @@ func (e *fnEnc) strConcat(a, b Term) Term {
 
 func (e *fnEnc) calleeName(cc *ssa.CallCommon) (string, *types.Signature) {
 	if cc.IsInvoke() {
-		recv := cc.Value.Type()
+		recv := types.Unalias(cc.Value.Type())
 		return "(" + types.TypeString(recv, nil) + ")." + cc.Method.Name(), cc.Method.Type().(*types.Signature)
 	}
 	if f := cc.StaticCallee(); f != nil {
@@ -179,11 +179,19 @@ func (e *fnEnc) call(c *blockCtx, in ssa.Instruction, cc *ssa.CallCommon) []Term
 		argTypes = append(argTypes, a.Type())
 	}
 	// closure call whose target is known
-	if name == "" {
+	e.curBindings = nil
+	{
 		if mc, ok := cc.Value.(*ssa.MakeClosure); ok {
-			name = canonFuncName(mc.Fn.(*ssa.Function).String())
+			fn := mc.Fn.(*ssa.Function)
+			name = canonFuncName(fn.String())
+			e.curBindings = map[string]SVal{}
+			for i, fv := range fn.FreeVars {
+				e.curBindings[fv.Name()] = SVal{t: e.val(mc.Bindings[i]), typ: fv.Type(), fvPtr: true}
+			}
 		}
 	}
+	e.curArgs = args
+	e.effectObligations(c, in, "call", name)
 	// models of stdlib functions
 	if res, ok := e.stdlibModel(c, in, name, args, cc); ok {
 		return res
@@ -311,6 +319,9 @@ func (e *fnEnc) applyContract(c *blockCtx, in ssa.Instruction, name string, ctr 
 	for i, n := range names {
 		vars[n] = SVal{t: args[i], typ: argTypes[i]}
 	}
+	for k, v := range e.curBindings {
+		vars[k] = v
+	}
 	pre := c.st.clone()
 	env := &specEnv{enc: e, vars: vars, st: c.st, old: pre, pkg: ctr.Pkg}
 	ord := e.callOrdinal(in, name)
@@ -378,6 +389,16 @@ func (e *fnEnc) applyAssigns(c *blockCtx, ctr *FuncContract, env *specEnv) {
 			}
 			v := e.evalSpec(ex, env)
 			e.havocObject(c.st, v)
+		case strings.HasPrefix(txt, "mapof("):
+			ex, err := parseExpr(txt[len("mapof(") : len(txt)-1])
+			if err != nil {
+				e.fail("assigns %s: %v", txt, err)
+			}
+			v := e.evalSpec(ex, env)
+			ks, vs, _ := e.mapSorts(v.typ)
+			dc, ds, vc, vsrt := e.mapComps(ks, vs)
+			e.heapSet(c.st, dc, store(e.heapGet(c.st, dc, ds), v.t, e.freshConst("havoc.dom", ArrayOf(ks, SBool))))
+			e.heapSet(c.st, vc, store(e.heapGet(c.st, vc, vsrt), v.t, e.freshConst("havoc.val", ArrayOf(ks, vs))))
 		case strings.HasPrefix(txt, "allelems("):
 			t, ok := e.eng.lookupType(env.pkg, txt[len("allelems("):len(txt)-1])
 			if !ok {
@@ -443,7 +464,7 @@ func (e *fnEnc) havocLocation(st *state, ex Expr, env *specEnv) {
 	if !ok {
 		e.fail("assigns: unsupported location %s", ex)
 	}
-	base := e.evalSpec(sel.X, env)
+	base := e.evalAddrBase(sel.X, env)
 	pt, ok := types.Unalias(base.typ).Underlying().(*types.Pointer)
 	if !ok || !isStructType(pt.Elem()) {
 		e.fail("assigns %s: base must be a pointer to struct", ex)
@@ -659,11 +680,11 @@ func (e *fnEnc) runDefers(c *blockCtx, in *ssa.RunDefers) {
 		for _, i2 := range b.Instrs {
 			if d, ok := i2.(*ssa.Defer); ok {
 				if !(b == c.b || b.Dominates(c.b)) {
-					// conditional defer: only sound to run it when its block was executed
-					if e.reach[b].S != "" {
-						e.fail("conditional defer")
+					if !blockReaches(b, c.b) {
+						continue // this defer statement cannot have been executed on a path to here
 					}
-					continue
+					// executed on some paths only
+					e.fail("conditional defer")
 				}
 				ds = append(ds, d)
 			}
@@ -727,9 +748,33 @@ func (e *fnEnc) effectObligations(c *blockCtx, in ssa.Instruction, kind, callee 
 			e.fail("effect clause: %v", err)
 		}
 		env := e.envAt(c.b, e.curIdx, c.st)
+		for i, a := range e.curArgs {
+			env.vars[fmt.Sprintf("arg%d", i)] = SVal{t: a}
+			if cc := callCommon(in); cc != nil {
+				as := cc.Args
+				if cc.IsInvoke() {
+					if i == 0 {
+						env.vars["arg0"] = SVal{t: a, typ: cc.Value.Type()}
+						continue
+					}
+					if i-1 < len(as) {
+						env.vars[fmt.Sprintf("arg%d", i)] = SVal{t: a, typ: as[i-1].Type()}
+					}
+				} else if i < len(as) {
+					env.vars[fmt.Sprintf("arg%d", i)] = SVal{t: a, typ: as[i].Type()}
+				}
+			}
+		}
 		g := e.evalBool(ex, env)
 		e.obligation("effect", target, c.reach, g, f[2], e.posOf(in), false)
 	}
+}
+
+func callCommon(in ssa.Instruction) *ssa.CallCommon {
+	if ci, ok := in.(ssa.CallInstruction); ok {
+		return ci.Common()
+	}
+	return nil
 }
 
 func (e *fnEnc) ret(c *blockCtx, in *ssa.Return) {
@@ -816,7 +861,7 @@ func (e *fnEnc) assignsTargets() (map[string][]Term, bool) {
 			if !ok {
 				e.fail("assigns: unsupported location %s", txt)
 			}
-			base := e.evalSpec(sel.X, env)
+			base := e.evalAddrBase(sel.X, env)
 			si := e.structOf(ptrElem(base.typ))
 			i := si.fieldIndex(sel.Name)
 			if i < 0 {
@@ -928,4 +973,33 @@ func (e *fnEnc) frameAssumption(st *state) Term {
 // oldRef: r is a root object that existed at entry (interior addresses are not checked).
 func (e *fnEnc) oldRef(r Term) Term {
 	return and(lt(intLit(0), r), le(r, e.entrySt.alloc))
+}
+
+// evalAddrBase evaluates the object part of an assigns location; a captured
+// struct variable (closure free variable) or an address-taken local stands for its address.
+func (e *fnEnc) evalAddrBase(x Expr, env *specEnv) SVal {
+	if id, ok := x.(*EIdent); ok {
+		if v, ok := env.vars[id.Name]; ok && v.fvPtr {
+			return SVal{t: v.t, typ: v.typ}
+		}
+	}
+	return e.evalSpec(x, env)
+}
+
+func blockReaches(from, to *ssa.BasicBlock) bool {
+	seen := map[*ssa.BasicBlock]bool{}
+	stack := []*ssa.BasicBlock{from}
+	for len(stack) > 0 {
+		b := stack[len(stack)-1]
+		stack = stack[:len(stack)-1]
+		if b == to {
+			return true
+		}
+		if seen[b] {
+			continue
+		}
+		seen[b] = true
+		stack = append(stack, b.Succs...)
+	}
+	return false
 }
